@@ -341,6 +341,25 @@ pub fn cmd_corpus(args: &[String]) -> i32 {
             put("sany", "any", input.clone()); put("signore", "ignore", input);
         }
     }
+    // hostile declared lengths: strings, arrays and maps whose head argument sits at 2^31, 2^32, 2^62, 2^63 (+1, +2), 2^64 - 2, 2^64 - 1,
+    // alone, followed by a few items (what a wrapped-around count would consume), and as the last element of an enclosing array
+    for mj in [2u8, 3, 4, 5] {
+        for arg in [1u64 << 31, 1 << 32, 1 << 62, 1 << 63, (1 << 63) + 1, (1 << 63) + 2, u64::MAX - 1, u64::MAX, 0x7fff_ffff_ffff_ffff] {
+            let mut h = vec![(mj << 5) | 27]; h.extend_from_slice(&arg.to_be_bytes());
+            for tail in [&[][..], &[0x01, 0x02], &[0x01, 0x02, 0x03, 0x04], &[0x61, 0x61, 0x01, 0xf6]] {
+                let mut b = h.clone(); b.extend_from_slice(tail);
+                let mut wrapped = vec![0x83u8, 0x01, 0x02]; wrapped.extend_from_slice(&b);
+                for buf in [b, wrapped] {
+                    let input = json!({"buf": bytes(&buf), "pos": 0});
+                    for a in ["skip", "array", "map", "bytes", "str", "datatype", "bytes_iter", "str_iter"] { put("acc", a, input.clone()) }
+                    put("tok", "bytes", json!({"buf": bytes(&buf)}));
+                    put("display", "fmt", json!({"buf": bytes(&buf)}));
+                    put("sany", "any", input.clone()); put("signore", "ignore", input.clone());
+                    for t in ["duration", "tup3", "optresult", "arr3i32", "rangeu8"] { put("tdec", t, json!({"bytes": bytes(&buf)})) }
+                }
+            }
+        }
+    }
     // (2) integer heads at every width through the typed integer decodes
     for major in 0..2u8 { for w in [0u8, 1, 2, 4, 8] { for _ in 0..(if thorough { 400 } else { 40 }) {
         let a = rand_arg(&mut rng);
